@@ -249,6 +249,34 @@ func runC05(in sx.SX) (sx.SX, string) {
 			if sx.Text(got) != sx.Text(want) && fail == "" {
 				fail = fmt.Sprintf("step %d (%s): the reused instance observed %s, a fresh instance %s", i, sx.Quote(text), sx.Text(got), sx.Text(want))
 			}
+			// the pull interface is a stream: whatever the interleaving, NextToken hands out the tokens of TokenizeBuffer one by
+			// one (nothing after the last), and HasNextToken says whether one is left
+			if fail == "" {
+				f3 := newTokenizer(kind, l[2])
+				setOptions(f3, bits)
+				stream := f3.TokenizeBuffer(text)
+				pos := 0
+				for ci, c := range calls {
+					o := sx.AsList(got[ci])
+					if sx.AsInt(c) == 0 {
+						if sx.AsBool(o[1]) != (pos < len(stream)) && fail == "" {
+							fail = fmt.Sprintf("step %d (%s): call %d, HasNextToken answered %v with %d of %d tokens handed out", i, sx.Quote(text), ci, sx.AsBool(o[1]), pos, len(stream))
+						}
+						continue
+					}
+					if pos >= len(stream) {
+						if len(o) > 1 && fail == "" {
+							fail = fmt.Sprintf("step %d (%s): call %d, NextToken returned a token after all %d tokens were handed out", i, sx.Quote(text), ci, len(stream))
+						}
+						continue
+					}
+					w := stream[pos]
+					pos++
+					if fail == "" && (len(o) < 2 || sx.Text(o[1]) != sx.Text(sx.L(sx.N(w.Type()), sx.S(w.Value()), sx.N(w.Line()), sx.N(w.Column())))) {
+						fail = fmt.Sprintf("step %d (%s): call %d, NextToken returned %s, token %d of TokenizeBuffer is (%d %s)", i, sx.Quote(text), ci, sx.Text(got[ci]), pos-1, w.Type(), sx.Quote(w.Value()))
+					}
+				}
+			}
 			// TokenizeBuffer on the reused instance (whatever the calls above left behind) against a fresh one
 			if fail == "" {
 				show := func(ts []*tokenizers.Token) string {
@@ -321,6 +349,31 @@ func runC05(in sx.SX) (sx.SX, string) {
 			}
 			if sx.Text(o1) != sx.Text(o2) {
 				fail = fmt.Sprintf("expression %d: ParseTokens then ParseString(%s) on the reused parser gave %s, a fresh parser %s", i, sx.Quote(composed), sx.Text(o1), sx.Text(o2))
+			}
+		}
+		// an empty token list (nil or of length zero) given to the reused parser: what a fresh parser makes of it
+		if fail == "" {
+			for _, empty := range [][]*tokenizers.Token{nil, {}} {
+				f4 := parsers.NewExpressionParser()
+				e1, e2 := p.ParseTokens(empty), f4.ParseTokens(empty)
+				var o1, o2 sx.SX
+				if e1 != nil {
+					code, _ := errCode(e1)
+					o1 = sx.L(sx.I(code))
+				} else {
+					o1 = renderRPN(p)
+				}
+				if e2 != nil {
+					code, _ := errCode(e2)
+					o2 = sx.L(sx.I(code))
+				} else {
+					o2 = renderRPN(f4)
+				}
+				if sx.Text(o1) != sx.Text(o2) || p.Expression() != f4.Expression() || len(p.VariableNames()) != len(f4.VariableNames()) || len(p.InitialTokens()) != len(f4.InitialTokens()) {
+					fail = fmt.Sprintf("expression %d: after %s, ParseTokens of an empty token list (nil: %v) left the reused parser with expression %s, result %s, %d variables; a fresh parser with %s, %s, %d", i, sx.Quote(text), empty == nil, sx.Quote(p.Expression()), sx.Text(o1), len(p.VariableNames()), sx.Quote(f4.Expression()), sx.Text(o2), len(f4.VariableNames()))
+					break
+				}
+				p.ParseString(text)
 			}
 		}
 		out = append(out, obs)
